@@ -76,7 +76,7 @@ fn drain(fd: RawFd) -> Vec<u8> {
 }
 
 #[derive(Default, Clone, Debug)]
-pub struct WireStats { pub autorepeat_of_held_key: u64, pub failed_sends_before: u64, pub sends_before: u64, pub foreign: u64, pub foreign_syn_other: u64, pub foreign_syn: u64, pub foreign_msc: u64, pub foreign_autorepeat: u64, pub foreign_unknown_code: u64, pub foreign_other_type: u64, pub foreign_big_code: u64, pub eagain_mid_skip: u64, pub batches: u64, pub records_written: u64 }
+pub struct WireStats { pub backlogs: u64, pub autorepeat_of_held_key: u64, pub failed_sends_before: u64, pub sends_before: u64, pub foreign: u64, pub foreign_syn_other: u64, pub foreign_syn: u64, pub foreign_msc: u64, pub foreign_autorepeat: u64, pub foreign_unknown_code: u64, pub foreign_other_type: u64, pub foreign_big_code: u64, pub eagain_mid_skip: u64, pub batches: u64, pub records_written: u64 }
 
 pub struct Pipes { pub kbd_r: RawFd, pub kbd_w: RawFd, pub tab_r: RawFd, pub tab_w: RawFd, pub out_r: RawFd, pub out_w: RawFd }
 impl Pipes {
@@ -99,7 +99,7 @@ fn feed(fd: RawFd, buf: &[u8]) {
     _ => { crate::engine::HARNESS_FAULTS.fetch_add(1, std::sync::atomic::Ordering::Relaxed); }
   }
 }
-impl Drop for Pipes { fn drop(&mut self) { crate::sysseam::clear(self.kbd_r); crate::sysseam::clear(self.tab_r); crate::sysseam::unwatch_reads(self.kbd_r); crate::sysseam::unwatch_reads(self.tab_r); for fd in [self.kbd_r, self.kbd_w, self.tab_r, self.tab_w, self.out_r, self.out_w] { if fd >= 0 { let _ = close(fd); } } } }
+impl Drop for Pipes { fn drop(&mut self) { crate::sysseam::clear(self.kbd_r); crate::sysseam::clear(self.tab_r); crate::sysseam::unwatch_reads(self.kbd_r); crate::sysseam::unwatch_reads(self.tab_r); crate::sysseam::unwatch_writes(self.out_w); for fd in [self.kbd_r, self.kbd_w, self.tab_r, self.tab_w, self.out_r, self.out_w] { if fd >= 0 { let _ = close(fd); } } } }
 
 /// A foreign record: something a real evdev node emits that the reader must skip.
 pub fn foreign_record(sel: u64, arg: u64, stats: &mut WireStats, tablet: bool) -> Vec<u8> {
@@ -143,7 +143,7 @@ impl PipeLayer {
   pub fn new(has_tablet: bool) -> PipeLayer {
     let p = Pipes::new();
     crate::sysseam::forget_epoll_registrations();
-    crate::sysseam::watch_reads(p.kbd_r); crate::sysseam::watch_reads(p.tab_r);
+    crate::sysseam::watch_reads(p.kbd_r); crate::sysseam::watch_reads(p.tab_r); crate::sysseam::watch_writes(p.out_w);
     let drv = VerifRealDriver::from_fds(p.kbd_r, p.out_w, if has_tablet { Some(p.tab_r) } else { None });
     PipeLayer { p, drv, stats: WireStats::default(), last_actual: None }
   }
@@ -157,6 +157,8 @@ impl ByteLayer for PipeLayer {
       else { foreign_record(s, a, stats, false) }
     };
     let nb = tape.below(3); for _ in 0..nb { let s = tape.below(10); let a = tape.below(1 << 16); buf.extend(foreign(s, a, &mut self.stats)); }
+    // now and then a backlog: a held key auto-repeated for seconds while nothing else happened
+    if tape.below(150) == 149 { let n = 40 + tape.below(260); self.stats.backlogs += 1; for _ in 0..n { let a = tape.below(1 << 16); buf.extend(foreign(2, a | 8, &mut self.stats)); } }
     buf.extend(key_record(e));
     let na = tape.below(3); for _ in 0..na { let s = tape.below(10); let a = tape.below(1 << 16); buf.extend(foreign(s, a, &mut self.stats)); }
     self.stats.records_written += 1 + nb + na;
@@ -222,6 +224,8 @@ impl ByteLayer for PipeLayer {
   fn take_driver(&mut self) -> Option<VerifRealDriver> { Some(std::mem::replace(&mut self.drv, VerifRealDriver::from_fds(-1, -1, None))) }
   fn put_driver(&mut self, d: VerifRealDriver) { self.drv = d; }
   fn device_fds(&self) -> (i32, i32) { (self.p.kbd_r, self.p.tab_r) }
+  fn uinput_fd(&self) -> i32 { self.p.out_w }
+  fn drain_uinput(&mut self) -> Vec<u8> { if self.p.out_r >= 0 { drain(self.p.out_r) } else { vec![] } }
   fn sabotage_reader(&mut self, tablet: bool) {
     // The descriptor number must stay allocated (another worker thread could be handed it the
     // moment it is closed), so the write end is dup2'ed over the read end: a read on a descriptor
@@ -382,6 +386,16 @@ impl WireCampaign {
         else { let k = rng.pick(&self.keys); b.push(Rec::Key(if rng.chance(1, 2) { Pressed(k) } else { Released(k) })); }
       }
       bursts.push(b);
+    }
+    // a backlog: the reader fell behind while a key auto-repeated (or a mouse moved): tens to hundreds
+    // of records it must skip in a row, then a key record it must not lose
+    if rng.chance(1, 25) {
+      let n = match rng.below(4) { 0 => rng.range(30, 70), 1 => rng.range(60, 140), 2 => rng.range(120, 300), _ => rng.range(250, 700) };
+      let sel = [2u64, 2, 1, 6, 3, 0][rng.below(6)];
+      let mut b = vec![];
+      for _ in 0..n { b.push(Rec::Foreign(if rng.chance(1, 10) { rng.below(10) as u64 } else { sel }, rng.below(1 << 16) as u64)); }
+      let k = rng.pick(&self.keys); b.push(Rec::Key(if rng.chance(1, 2) { Pressed(k) } else { Released(k) }));
+      let at = rng.below(bursts.len() + 1); bursts.insert(at, b);
     }
     let loopback = rng.chance(3, 4);
     let before = if rng.chance(1, 4) {
